@@ -127,6 +127,7 @@ SlotsMatch(mem, items, eff, SlotOf(_)) ==
 AcceptInfoBuild(supplied, v) ==
   LET mem == v.bytes  eff == Effective(supplied)  w == InfoWalk(mem)  n == Len(eff) IN
   /\ v.al = 0 /\ Len(mem) % 8 = 0 /\ v.sv = Len(mem)
+  /\ (Has(v, "allocs") => AllocOk(v, Len(mem)))             \* 8-aligned by REQUEST, not by the allocator's generosity
   /\ Len(mem) >= 16 /\ U32At(mem, 0) = Len(mem)
   /\ LoadSpec(FALSE, mem).k = "ok"
   /\ w.fin = "none" /\ Len(w.items) = n + 1
@@ -135,6 +136,7 @@ AcceptInfoBuild(supplied, v) ==
 AcceptHdrBuild(arch, supplied, v) ==
   LET mem == v.bytes  eff == Effective(supplied)  n == Len(eff) IN
   /\ v.al = 0 /\ Len(mem) % 8 = 0 /\ v.sv = Len(mem) /\ Len(mem) >= 24
+  /\ (Has(v, "allocs") => AllocOk(v, Len(mem)))
   /\ Bytes(mem, 0, 4) = HdrMagic /\ Bytes(mem, 4, 4) = U32Bytes(arch) /\ U32At(mem, 8) = Len(mem)
   /\ HLoadSpec(FALSE, mem).k = "ok"
   /\ LET w == HWalk(mem) IN
